@@ -176,6 +176,40 @@ func c02cases(quick bool) []*BCase {
 			add("calls/"+recv+"/"+name, cfg, false)
 		}
 	}
+	// the same call words with the service mentioned again in a later file (which appends one more call, a field and a
+	// tag): what the earlier file declared - order, withers, arguments - is kept as declared
+	for _, recv := range []string{"pk.New", "value:pk.Obj{}"} {
+		for _, wd := range words {
+			if len(wd) == 0 {
+				continue
+			}
+			first := c02base(false)
+			s := Service{Name: "sut"}
+			if strings.HasPrefix(recv, "value:") {
+				s.Value = P(strings.TrimPrefix(recv, "value:"))
+			} else {
+				s.Constructor = P(recv)
+			}
+			name := ""
+			for k, mi := range wd {
+				c := methods[mi]
+				c.Args = []any{k, "%pStr%"}
+				s.Calls = append(s.Calls, c)
+				name += c.Method[:1] + c.Method[len(c.Method)-1:]
+			}
+			s.Fields = []KV{{"F2", "field-before-calls"}}
+			first.Services = append(first.Services, s)
+			later := &Cfg{Services: []Service{{Name: "sut", Calls: []Call{{Method: "Set2", Args: []any{"from the later file"}}}, Fields: []KV{{"F1", "later-field"}}, Tags: []Tag{{Name: "tg", Priority: P(-2)}}}}}
+			merged := c02base(false)
+			ms := s
+			ms.Calls = append(append([]Call{}, s.Calls...), later.Services[0].Calls...)
+			ms.Fields = append(append([]KV{}, s.Fields...), later.Services[0].Fields...)
+			ms.Tags = later.Services[0].Tags
+			merged.Services = append(merged.Services, ms)
+			cases = append(cases, &BCase{ID: "calls-then-later-file/" + recv + "/" + name, Cfg: merged,
+				Files: []File{{"a.yaml", first.YAML()}, {"b.yaml", later.YAML()}}, Sessions: []BSession{{Ops: c02ops}}})
+		}
+	}
 	// call shapes: 1-element form, explicit false, wither called as a plain call
 	for i, calls := range [][]Call{
 		{{Method: "Set1", NoArgs: true}},
@@ -292,7 +326,7 @@ func init() {
 		ID:    "C02",
 		Level: "exploration",
 		Rule: "every (argument position in {ctor arg 0, ctor arg 1, field F1, unexported field f3, call arg, wither arg, decorator arg}) x (argument form: ints, uint64 max, floats, bools, null, strings incl. quotes/unicode, @service, @non_shared service, ten !value forms, $gontainer, %param% of every literal type, multi-chunk, %%, %fn()%, !tagged, near-miss prefixes) singly [thorough: every pair of (position, form)], " +
-			"all call words of length <= 3 over {Set1, Set2, With1, With2} on 5 receiver kinds, 24 creation methods x 4 scope settings, 10 error paths; each executed in a probe linked with the real runtime, 6 operations per configuration, compared with the reference model; non-trivial/distinct = distinct configuration that was executed",
+			"all call words of length <= 3 over {Set1, Set2, With1, With2} on 5 receiver kinds (and on 2 of them with the service extended by a later file), 24 creation methods x 4 scope settings, 10 error paths; each executed in a probe linked with the real runtime, 6 operations per configuration, compared with the reference model; non-trivial/distinct = distinct configuration that was executed",
 		Assumptions: []string{
 			"the fixture universe (self-describing constructors, withers, decorators) and the reference model are the oracle; the pinned runtime's reflection-based caller/setter are the trusted external library",
 			"error texts are compared by content (must contain the documented fragments), not verbatim",
